@@ -6,12 +6,20 @@ C04  Schedule and configuration independence — what is proved.
   and lazy stepping can only remove interleavings, never add an observation
 * `deliver_deterministic` : the quiescent semantics used by the correspondence is a function of the
   sequence of replies (trivially: it is a function)
+* `begin_inputs_stable` (flat configurations, push path): once a simulator's step can begin (its
+  dependencies are ready), no action of any *other* simulator — a start, a wake-up, another step
+  beginning, a reply to `step` or `get_data` with whatever content — changes the inputs that step
+  will receive, disables it, or changes the simulator's own state; the only exception is an
+  asynchronous `set_data` addressed to that simulator (the deprecated async-requests feature).  This
+  is the commutation fact the independence of the observations from the interleaving rests on: the
+  observation a simulator makes next is fixed as soon as it is enabled, whatever happens first.
 NOT proved: that all maximal runs give every simulator the same (time, inputs) sequence (the
 commutation/confluence argument of DESIGN.md).  That part is decided by exhaustive enumeration of all
 reply interleavings of small scenarios on the real scheduler and by the cross product of
 configurations (lazy, cache, debug, start order, in-process / subprocess) on generated scenarios.
 -/
 import MosaikModel.Deliver
+import MosaikProofs.Sched.Others
 namespace Mosaik.C04
 open Mosaik
 
@@ -75,5 +83,86 @@ theorem eager_deps_is_lazy_when_consumers_ready (cfg : Cfg) (s : State) (p : Sid
   simp only [Bool.and_eq_true] at h ⊢
   refine ⟨h.1, ?_⟩
   simp [hc]
+
+/-! ### the next observation is fixed once the step is enabled -/
+
+theorem depsReady_mono {cfg : Cfg} {s s' : State} (hm : ∀ r, (s.sims r).progress ≤ (s'.sims r).progress) {q : Sid} {t : TT}
+    (h : depsReady cfg s q t = true) : depsReady cfg s' q t = true := by
+  unfold depsReady at h ⊢
+  simp only [Bool.and_eq_true, List.all_eq_true, decide_eq_true_eq, Bool.or_eq_true, Bool.not_eq_true'] at h ⊢
+  refine ⟨⟨?_, ?_⟩, ?_⟩
+  · intro qd hqd
+    exact TT.lt_of_lt_of_le (h.1.1 qd hqd) (TI.act_mono_left qd.2 (hm qd.1))
+  · intro sd hsd
+    exact TT.le_trans (h.1.2 sd hsd) (hm sd.1)
+  · rcases h.2 with hl | hl
+    · exact Or.inl hl
+    · right; intro sd hsd; exact TT.le_trans (hl sd hsd) (hm sd.1)
+
+theorem stepInputs_eq_of {cfg : Cfg} {s s' : State} {q : Sid} {c : TT} (hpulled : (cfg.sim q).pulled = [])
+    (hown : OwnEq q s s') (hdue : dueAt (TT.time c) (s'.sims q).buffer = dueAt (TT.time c) (s.sims q).buffer) :
+    stepInputs cfg s' q c = stepInputs cfg s q c := by
+  unfold OwnEq at hown
+  simp only [SimSt.own, Prod.mk.injEq] at hown
+  obtain ⟨_, _, _, hpers, hset⟩ := hown
+  unfold stepInputs pullInputs
+  simp only [hpulled, List.foldl_nil, hpers, hset]
+  unfold bufferTake
+  simp only
+  unfold dueAt at hdue
+  rw [hdue]
+
+/-- **C04, commutation.**  Flat configuration, values delivered by pushing (no cached connection into `q`).
+`q` is waiting for its dependencies for the step `c` and they are ready.  Then any action `a` of another
+simulator — other than a `set_data` addressed to `q` — that does not fail leaves `q` waiting for the same step,
+still ready, with the same own state, and with exactly the same step inputs. -/
+theorem begin_inputs_stable {cfg : Cfg} (hw : WFCfg cfg) (hs : WFShape cfg) {rank : Sid → Nat} (hfl : Flat cfg rank) (hpo : PushOk cfg)
+    {s s' : State} (hr : Reach cfg s) (hnf0 : s.failed = none) {q : Sid} (hq : q < cfg.n) {c : TT}
+    (hpc : (s.sims q).pc = .waitDeps c) (hready : depsReady cfg s q c = true) (hpulled : (cfg.sim q).pulled = [])
+    {a : Action} (hact : a.actor ≠ some q) (hset : ∀ p e, a ≠ .setData p q e)
+    (h : step cfg s a = some s') (hnf : s'.failed = none) :
+    (s'.sims q).pc = .waitDeps c ∧ depsReady cfg s' q c = true ∧ OwnEq q s s' ∧
+    stepInputs cfg s' q c = stepInputs cfg s q c := by
+  obtain ⟨hcore, hpcs⟩ := reach_good hw hr hnf0
+  have hown := step_other_own h hact hset
+  have hpc' : (s'.sims q).pc = .waitDeps c := by
+    have := hown
+    unfold OwnEq at this
+    simp only [SimSt.own, Prod.mk.injEq] at this
+    rw [this.1]; exact hpc
+  have hmono : ∀ r, (s.sims r).progress ≤ (s'.sims r).progress := by
+    rcases step_frame hw (reach_good hw hr) h hnf with hl | ⟨_, _, _, _, _, _, _, _, _, _, hprog, _, _, _⟩
+    · exact hl.progress
+    · intro r; rw [hprog r]; exact TT.le_refl _
+  refine ⟨hpc', depsReady_mono hmono hready, hown, ?_⟩
+  apply stepInputs_eq_of hpulled hown
+  apply step_other_due (TT.time c) h hact
+  -- a value pushed now by a provider of `q` is not yet due at `c`
+  intro p d cp ha hcur hot pe hpe hpq
+  have hp : p < cfg.n := by
+    subst ha
+    simp only [step, stepDataReply] at h
+    split at h
+    · rename_i hguard
+      simp only [Bool.and_eq_true] at hguard
+      exact live_lt hguard.1
+    · cases h
+  obtain ⟨d0, hd0, hle⟩ := hpo.covered p hp pe hpe
+  rw [hpq] at hd0
+  obtain ⟨hwaithead, hwprog, _⟩ := (hpcs q hq).waiting c hpc
+  -- readiness of the dependency on `p`
+  have hdep : c < TI.act (s.sims p).progress d0 := by
+    unfold depsReady at hready
+    simp only [Bool.and_eq_true, List.all_eq_true, decide_eq_true_eq] at hready
+    exact hready.1.1 (p, d0) hd0
+  rw [(hcore p hp).cur_eq cp hcur] at hdep
+  have hlt2 : c < TI.act cp pe.2.2.1 := TT.lt_of_lt_of_le hdep (TI.act_mono_right cp hle)
+  obtain ⟨hc1, hl1⟩ := hpo.shape p hp pe hpe
+  have hcl : c.length = 1 := by
+    rw [((reach_shape hw hs hr) q).1 c (List.mem_of_mem_head? hwaithead), hfl.depth]
+  have hal : (TI.act cp pe.2.2.1).length = 1 := by rw [TI.act_length, hl1]
+  have := (flat_lt hcl hal).mp hlt2
+  rw [flat_act_time cp hc1 hl1] at this
+  omega
 
 end Mosaik.C04
